@@ -495,6 +495,42 @@ def write_evidence(ctx, spec, proof, tie, violations):
         json.dump(ev, f, indent=1)
 
 
+def merge_specs(specs, technique=None):
+    """Merges development configs (checks/c01a.py, c01b.py …) of the parts of one property into one SPEC."""
+    def lst(x):
+        return x if isinstance(x, list) else [x]
+    out = {"lean_props": [], "lean_namespace": [], "parts": [], "theorems": [], "trusted_base": [], "modelled": [],
+           "assumptions": [], "lean_extra": []}
+    texts, notes, regens, posts = [], [], [], []
+    for sp in specs:
+        out["lean_props"] += lst(sp["lean_props"])
+        out["lean_namespace"] += [n for n in lst(sp.get("lean_namespace", [])) if n]
+        out["parts"] += parts_of(sp)
+        for k in ("theorems", "trusted_base", "modelled", "assumptions", "lean_extra"):
+            out[k] += sp.get(k, [])
+        m = sp.get("manifest", {})
+        texts.append(m.get("text", "")); notes.append(m.get("note", ""))
+        if sp.get("regen"):
+            regens.append(sp["regen"])
+        if sp.get("post"):
+            posts.append(sp["post"])
+    if regens:
+        out["regen"] = lambda ctx: sum([(r(ctx) or []) for r in regens], [])
+    if posts:
+        out["post"] = lambda ctx, tie: [p_(ctx, tie) for p_ in posts]
+    out["manifest"] = {"text": " || ".join(t for t in texts if t), "note": " ".join(n for n in notes if n),
+                       "technique": technique or "Lean 4 proofs over hand-written models + differential correspondence (several harness/driver pairs)"}
+    return out
+
+
+def load_dev_spec(name):
+    p = os.path.join(VERIF, "checks", name + ".py")
+    s = importlib.util.spec_from_file_location("check_" + name, p)
+    m = importlib.util.module_from_spec(s)
+    s.loader.exec_module(m)
+    return m.SPEC
+
+
 def load_spec(pid):
     p = os.path.join(VERIF, "checks", pid.lower() + ".py")
     s = importlib.util.spec_from_file_location("check_" + pid, p)
